@@ -48,6 +48,8 @@ func scalarFromGo(kind string, v reflect.Value) val.Val {
 	panic("scalarFromGo: " + kind)
 }
 
+var nilToggle int
+
 func scalarToGo(kind string, x val.Val, dst reflect.Value) {
 	switch kind {
 	case "bool":
@@ -65,8 +67,16 @@ func scalarToGo(kind string, x val.Val, dst reflect.Value) {
 	case "string":
 		dst.SetString(string(x.B))
 	case "bytes":
-		if x.B == nil {
-			dst.SetBytes([]byte{})
+		// an empty value is handed over as a nil slice half of the time and as an allocated empty
+		// slice otherwise (both are "empty"; C01/C08 include nil slices); the choice is a
+		// deterministic function of a counter so that runs replay
+		if len(x.B) == 0 {
+			nilToggle++
+			if nilToggle%2 == 0 {
+				dst.SetBytes([]byte{})
+			} else {
+				dst.SetBytes(nil)
+			}
 		} else {
 			dst.SetBytes(append([]byte{}, x.B...))
 		}
